@@ -32,7 +32,7 @@ def write_coqproject():
     files = []
     for root, _, names in os.walk(COQ):
         for n in sorted(names):
-            if n.endswith(".v"):
+            if n.endswith(".v") and re.fullmatch(r"[A-Za-z_][A-Za-z0-9_]*\.v", n):
                 files.append(os.path.relpath(os.path.join(root, n), COQ))
     files.sort()
     txt = "-Q . Inferno\n-arg -w -arg -inexact-float,-deprecated-syntactic-definition,-deprecated-instance-without-locality\n" + "\n".join(files) + "\n"
